@@ -101,6 +101,27 @@ pub fn scenarios(quick: bool) -> Vec<Scenario> {
                 v.push(Scenario::new(&format!("deref-top-{}-{}-dst{}", name, d, dest_exists), t2, &["-r", "-L", "--driver", d, "-w", "2", &first, "dst"]));
             }
         }
+        // -L without -r: link operands that lead to files (a directory still needs -r)
+        for idx in [0usize, 1, 2, 8, 10] {
+            let (name, ents) = &sp[idx];
+            let mut tree = base();
+            tree.extend(ents.clone());
+            let first = ents.iter().find(|e| matches!(e.kind, crate::scen::Kind::Symlink(_))).unwrap().path.clone();
+            for dest_exists in [false, true] {
+                let mut t2 = tree.clone();
+                if dest_exists {
+                    t2.push(Entry::dir("dst"));
+                }
+                v.push(Scenario::new(&format!("deref-norecursive-{}-{}-dst{}", name, d, dest_exists), t2, &["-L", "--driver", d, "-w", "2", &first, "dst"]));
+            }
+        }
+        {
+            let mut tree = base();
+            tree.extend(sp[0].1.clone());
+            tree.extend(sp[1].1.clone());
+            tree.push(Entry::dir("dst"));
+            v.push(Scenario::new(&format!("deref-norecursive-two-operands-{}", d), tree, &["-L", "--driver", d, "-w", "2", "src/l_rel", "src/l_abs", "src/t", "dst"]));
+        }
         // without -L links stay links (control)
         let mut tree = base();
         tree.extend(sp[0].1.clone());
